@@ -12,6 +12,7 @@ package kv
 import (
 	"bytes"
 	"context"
+	"sync"
 
 	"github.com/synnaxlabs/aspen/internal/node"
 	"github.com/synnaxlabs/freighter"
@@ -95,7 +96,7 @@ func (r *recoveryServer) recoverPeer(
 	return nil
 }
 
-func runRecovery(ctx context.Context, cfg Config) error {
+func runRecovery(ctx context.Context, cfg Config, ingressMu *sync.Mutex) error {
 	cfg.Instrumentation = cfg.Child("recovery")
 	nodes := cfg.Cluster.Nodes()
 	sCtx := signal.Wrap(ctx, signal.WithInstrumentation(cfg.Instrumentation))
@@ -114,7 +115,7 @@ func runRecovery(ctx context.Context, cfg Config) error {
 			if n.Key == cfg.Cluster.HostKey() {
 				continue
 			}
-			if err := runSingleNodeRecovery(ctx, cfg, n, hw); err != nil {
+			if err := runSingleNodeRecovery(ctx, cfg, n, hw, ingressMu); err != nil {
 				return err
 			}
 		}
@@ -154,6 +155,7 @@ func runSingleNodeRecovery(
 	cfg Config,
 	node node.Node,
 	hw version.Counter,
+	ingressMu *sync.Mutex,
 ) error {
 	cfg.L.Info("starting recovery for node", zap.Stringer("nodeKey", node.Key), zap.Int64("highWater", int64(hw)))
 	stream, err := cfg.RecoveryTransportClient.Stream(ctx, node.Address)
@@ -163,32 +165,39 @@ func runSingleNodeRecovery(
 	if err = stream.Send(RecoveryRequest{HighWater: hw}); err != nil {
 		return err
 	}
+	// The stream is drained before anything is decided: the gossip ingress is already
+	// live while this node recovers, so the supersedes test and the commit below must
+	// not be interleaved with an ingress transaction. ingressMu is the lock
+	// filterPersist holds around each of its transactions; it is taken only once the
+	// peer has sent everything, so a slow peer never blocks the ingress.
+	var ops []Operation
+	for {
+		resp, err := stream.Receive()
+		if err != nil {
+			if errors.Is(err, freighter.EOF) {
+				break
+			}
+			return err
+		}
+		ops = append(ops, resp.Operations...)
+	}
+	ingressMu.Lock()
+	defer ingressMu.Unlock()
 	return kv.WithTx(ctx, cfg.Engine, func(tx kv.Tx) error {
-		count := 0
-		for {
-			resp, err := stream.Receive()
-			if err != nil {
-				if errors.Is(err, freighter.EOF) {
-					break
-				}
+		for _, op := range ops {
+			// Same rule as gossip ingress: an operation that does not supersede
+			// the stored one must not replace it.
+			if sup, supErr := supersedes(ctx, tx, op); supErr != nil || !sup {
+				continue
+			}
+			if err := op.apply(ctx, tx); err != nil {
 				return err
 			}
-			count += len(resp.Operations)
-			for _, op := range resp.Operations {
-				// Same rule as gossip ingress: an operation that does not supersede
-				// the stored one must not replace it.
-				if sup, supErr := supersedes(ctx, tx, op); supErr != nil || !sup {
-					continue
-				}
-				if err = op.apply(ctx, tx); err != nil {
-					return err
-				}
-				if err = op.Digest().apply(ctx, tx); err != nil {
-					return err
-				}
+			if err := op.Digest().apply(ctx, tx); err != nil {
+				return err
 			}
 		}
-		cfg.L.Info("successfully recovered lost key-value operations", zap.Stringer("node", node.Key), zap.Int("operations", count))
+		cfg.L.Info("successfully recovered lost key-value operations", zap.Stringer("node", node.Key), zap.Int("operations", len(ops)))
 		return nil
 	})
 }
